@@ -1,5 +1,6 @@
 import binascii
 import logging
+import struct
 import time
 
 from .cid import UbxCID
@@ -350,6 +351,9 @@ class UbxServerBase_(object):
                     except KeyError:
                         # We can't parse the frame, is it registered()
                         logger.warning(f'frame not registered, cannot decode: {binascii.hexlify(data)}')
+                    except (ValueError, struct.error, AssertionError):
+                        # Payload does not fit the registered frame type (e.g. too short)
+                        logger.warning(f'malformed frame, cannot decode: {binascii.hexlify(data)}')
                 else:
                     logger.warning("checksum error in frame, discarding")
 
